@@ -53,6 +53,24 @@ CLAIMED.update({
     },
 })
 
+CLAIMED.update({
+    "C04": {
+        "technique": "static analysis: exhaustive table extraction from MIR vs a 3-valued operator model; census of Operator->Operator mappings",
+        "level": ("Static, exhaustive over all Operator variants: negate / swap / returns_null_on_null / is_logic_operator are extracted "
+                  "from MIR and must satisfy NOT-, mirror- and NULL-propagation laws in a 3-valued SQL model (for pattern operators: for "
+                  "every interpretation of the underlying predicate); every other Operator->Operator function in the workspace must "
+                  "delegate to them or satisfy a law itself. This is the algebra NOT push-down, canonicalisation and guarantee "
+                  "rewriting rely on; the individual pattern rewrites, constant folding and casts are not decided."),
+    },
+    "C47": {
+        "technique": "static analysis: exhaustive table extraction from MIR; symmetry + integer-range containment; one-sided match-arm detection",
+        "level": ("Static, exhaustive: numerical_coercion over all 121 ordered pairs of integer/float types is symmetric and, for "
+                  "integer pairs, range-preserving (no wrapping cast); every helper in the comparison_coercion chain gives the same "
+                  "abstract result for both operand orders over all 41x41 DataType variant pairs; Operator::swap obeys the mirror law. "
+                  "Decimal precision/scale arithmetic, string and temporal payloads are not decided."),
+    },
+})
+
 NA = {
     'C01': 'whole-pipeline value semantics over all queries x all table contents: functional verification, no clause visible in code shape beyond C03/C05/C47',
     'C08': 'ordering/permutation of runtime values (loser tree, cursors, heaps are value algorithms); no structural clause',
